@@ -470,6 +470,41 @@ M.LEN_HOOKS.append(_slist_len)
 # [f(x) for x in <symbolic sequence>]: a fresh sequence of the same length, defined pointwise
 
 
+class LazyMap:
+    """(f(x) for x in s) over a symbolic sequence s, with f as a z3 lambda (array) from elements to results"""
+
+    def __init__(self, src, lam, rty, e0, body):
+        self.src, self.lam, self.rty, self.e0, self.body = src, lam, rty, e0, body
+
+    def materialize(self, ex):
+        sty = self.src.ty
+        rty = TSeq(self.rty)
+        r = fresh_term(rty.sort(), "mapped")
+        i = z3.Int("i!map")
+        n = z3.Length(self.src.t)
+        body = z3.substitute(self.body, (self.e0, self.src.t[i]))
+        ex.assume(z3.Length(r) == n, "T-STD: a list comprehension has one element per input element")
+        ex.assume(z3.ForAll([i], z3.Implies(z3.And(i >= 0, i < n), rty.at(r, i) == body)), "T-STD: [f(x) for x in s][i] == f(s[i])")
+        ex.assumptions_used.add("list comprehension over a symbolic list as a pointwise-defined list (quantified definition)")
+        return SV(r, rty)
+
+
+_count_where = {}
+
+
+def count_where(seq_sort, elem_sort):
+    k = str(seq_sort)
+    if k not in _count_where:
+        _count_where[k] = z3.Function(f"count_where_{len(_count_where)}", seq_sort, z3.ArraySort(elem_sort, z3.BoolSort()), z3.IntSort())
+    return _count_where[k]
+
+
+def pred_lambda(elem_sort, body_fn):
+    """a predicate over sequence elements as a z3 lambda; the bound variable has a fixed name so equal bodies give equal terms"""
+    x = z3.Const("x!pred", elem_sort)
+    return z3.Lambda([x], body_fn(x))
+
+
 def _map_comprehension_hook(ex, e, frame, it, gi):
     import ast
     from .execu import Frame, _WouldFork, PyRaise
@@ -480,11 +515,9 @@ def _map_comprehension_hook(ex, e, frame, it, gi):
     if src is None or not isinstance(g.target, ast.Name):
         return NotImplemented
     sty = src.ty
-    ety = sty.elem() if hasattr(sty, "elem") else sty.inner
-    if ety.kind not in ("str", "int", "num", "bool"):
-        return NotImplemented
-    e0 = fresh_term(ety.sort(), "elem")
-    f2 = Frame(frame.fi, {g.target.id: SV(e0, ety)}, frame, frame.module)
+    inner = sty.inner                      # element sort as stored (boxed for nested sequences)
+    e0 = z3.Const("x!pred", inner.sort())
+    f2 = Frame(frame.fi, {g.target.id: _wrap_field(inner, e0)}, frame, frame.module)
     f2.self_cls = frame.self_cls
     ex.nofork += 1
     try:
@@ -498,16 +531,47 @@ def _map_comprehension_hook(ex, e, frame, it, gi):
             v = SV(term(v), ty_of_concrete(v))
         except Exception:
             return NotImplemented
-    rty = TSeq(v.ty)
-    r = fresh_term(rty.sort(), "mapped")
-    i = z3.Int("i!map")
-    n = z3.Length(src.t)
-    body = z3.substitute(v.t, (e0, sty.at(src.t, i)))
-    ex.assume(z3.Length(r) == n, "T-STD: a list comprehension has one element per input element")
-    ex.assume(z3.ForAll([i], z3.Implies(z3.And(i >= 0, i < n), rty.at(r, i) == body), patterns=[rty.at(r, i)] if False else []),
-              "T-STD: [f(x) for x in s][i] == f(s[i])")
-    ex.assumptions_used.add("list comprehension over a symbolic list as a pointwise-defined list (quantified definition)")
-    return SV(r, rty)
+    lm = LazyMap(src, z3.Lambda([e0], v.t), v.ty, e0, v.t)
+    if ex.ghost.get("__compkind__") == "gen":
+        return lm
+    return lm.materialize(ex)
+
+
+def _sum_hook(ex, args):
+    if len(args) == 1 and isinstance(args[0], LazyMap) and args[0].rty.kind == "bool":
+        lm = args[0]
+        ex.assumptions_used.add("T-STD: sum(cond(x) for x in xs) is the number of x in xs with cond(x)")
+        f = count_where(lm.src.t.sort(), lm.src.ty.inner.sort())
+        r = f(lm.src.t, lm.lam)
+        ex.assume(z3.And(r >= 0, r <= z3.Length(lm.src.t)))
+        return SV(r, INT)
+    if len(args) >= 1 and isinstance(args[0], LazyMap):
+        return M.b_sum(ex, [args[0].materialize(ex)] + list(args[1:]), {})
+    return NotImplemented
+
+
+M.SUM_HOOKS.append(_sum_hook)
+
+_orig_as_list = M.as_list
+
+
+def _as_list(ex, v):
+    if isinstance(v, LazyMap):
+        v = v.materialize(ex)
+    return _orig_as_list(ex, v)
+
+
+M.as_list = _as_list
+_orig_iter2 = M.iterable
+
+
+def _iterable_lazy(ex, v):
+    if isinstance(v, LazyMap):
+        v = v.materialize(ex)
+    return _orig_iter2(ex, v)
+
+
+M.iterable = _iterable_lazy
 
 
 M.COMPREHENSION_HOOKS.append(_map_comprehension_hook)
